@@ -323,19 +323,28 @@ def uni_strategy(kind, tier):
 
 def uni_check(kind, case, rec):
     fem = import_felupe()
+    axi = kind.endswith("-axi")
+    kind = kind[:-4] if axi else kind
     dim = 2 if kind.startswith("quad") else 3
-    mesh = (fem.Rectangle if dim == 2 else fem.Cube)(b=tuple(case["size"][:dim]), n=tuple(case["n"][:dim]))
+    a0 = (0.0, (0.0, 0.3, 1.2)[case["seed"] % 3]) if axi else (0.0,) * dim  # axisymmetric: distance of the grid from the axis
+    mesh = (fem.Rectangle if dim == 2 else fem.Cube)(a=tuple(a0), b=tuple(np.array(a0) + np.array(case["size"][:dim])), n=tuple(case["n"][:dim]))
     if kind in ("quad8", "hexahedron20"):
         mesh = mesh.add_midpoints_edges()
     if kind == "quad9":
         mesh = mesh.add_midpoints_edges().add_midpoints_faces()
     R = {"quad": fem.RegionQuad, "quad8": fem.RegionQuadraticQuad, "quad9": fem.RegionBiQuadraticQuad, "hexahedron": fem.RegionHexahedron, "hexahedron20": fem.RegionQuadraticHexahedron}[kind]
     ru, rn = R(mesh, uniform=True), R(mesh)
-    mk = (lambda r: fem.FieldPlaneStrain(r, dim=2)) if dim == 2 else (lambda r: fem.Field(r, dim=3))
+    mk = (lambda r: fem.FieldAxisymmetric(r, dim=2)) if axi else (lambda r: fem.FieldPlaneStrain(r, dim=2)) if dim == 2 else (lambda r: fem.Field(r, dim=3))
     fu, fn = fem.FieldContainer([mk(ru)]), fem.FieldContainer([mk(rn)])
     u = smooth_u(np.array(mesh.points), case["seed"], case["amp"])
+    if axi:
+        Rp = np.array(mesh.points)[:, 1]
+        u[:, 1] *= Rp / Rp.max()  # no radial displacement on the axis
     fu[0].values[...] = u
     fn[0].values[...] = u
+    if np.linalg.det(np.moveaxis(np.asarray(fn.extract()[0]), (0, 1), (-2, -1))).min() < 0.3:
+        rec.reject("det F < 0.3")
+        return
     um, _ = make_umat(fem, case["mat"])
     su, sn = fem.SolidBody(um, fu), fem.SolidBody(um, fn)
     par = case["parallel"]
@@ -349,6 +358,14 @@ def uni_check(kind, case, rec):
     rec.close("matrix", float(np.abs(A - B).max()) / float(np.abs(B).max()), 1e-12)
     Fu, Fn = np.asarray(fu.extract()[0]), np.asarray(fn.extract()[0])
     rec.close("deformation-gradient", float(np.abs(Fu - Fn).max()), 1e-13)
+    if axi:
+        rec.close("radius", float(np.abs(np.asarray(fu[0].radius) - np.asarray(fn[0].radius)).max()), 1e-13)
+        # the condensed body on the uniform grid as well
+        cu, cn = fem.SolidBodyNearlyIncompressible(fem.NeoHooke(mu=1.0), fu, bulk=50.0), fem.SolidBodyNearlyIncompressible(fem.NeoHooke(mu=1.0), fn, bulk=50.0)
+        a = np.asarray(cu.assemble.vector(fu).toarray())
+        b = np.asarray(cn.assemble.vector(fn).toarray())
+        rec.close("condensed-vector", float(np.abs(a - b).max()) / max(float(np.abs(b).max()), 1e-12), 1e-12)
+        return  # (the mass matrix of axisymmetric bodies is not available)
     if dim == 3 or True:
         Mu = np.asarray(fem.SolidBody(um, fu, density=1.3).assemble.mass().toarray())
         Mn = np.asarray(fem.SolidBody(um, fn, density=1.3).assemble.mass().toarray())
@@ -361,7 +378,7 @@ FAMILIES = [
     Family("axisymmetric-rate", ["revolve-thorough"], axi_check, strategy=axi_strategy, n={"quick": 1, "thorough": 30}, chunk=3, weight=6),
     Family("condensed-vs-threefield", ["hexahedron", "quad", "quad-axi", "quad8", "quad8-axi"], cond_check, strategy=cond_strategy, n={"quick": 20, "thorough": 800}, chunk=5, weight=3),
     Family("condensed-vs-threefield-q", ["hexahedron20"], cond_check, strategy=cond_strategy, n={"quick": 6, "thorough": 60}, chunk=2, weight=8),
-    Family("uniform-vs-general", ["quad", "quad8", "quad9", "hexahedron", "hexahedron20"], uni_check, strategy=uni_strategy, n={"quick": 18, "thorough": 800}, chunk=6),
+    Family("uniform-vs-general", ["quad", "quad8", "quad9", "hexahedron", "hexahedron20", "quad-axi", "quad8-axi", "quad9-axi"], uni_check, strategy=uni_strategy, n={"quick": 18, "thorough": 800}, chunk=6),
 ]
 
 LEVEL_TEXT = (
